@@ -24,12 +24,12 @@ TESTDIR = "/repo/resources/test"
 LEMMAS = [
     "RecsTotal.ASetT.from_archive_no_panic : forall a k, ASet.from_archive a <> Panic k",
     "RecsTotal.ASetT.from_archive_fuel_never_exhausted : forall a, ASet.from_archive a <> Err EOutOfFuel",
-    "RecsTotal.ASetT.read_set_advances : read_set a p = Ok (s, p') -> p + 4 <= p' /\\ p + 4 <= size a /\\ length s = 257",
+    "RecsTotal.ASetT.read_set_advances : read_set a p = Ok (s, p') -> p + 4 <= p' <= size a /\\ length s = 257",
     "RecsTotal.ASetT.from_archive_wf : from_archive a = Ok v -> wf_aset v",
     "RecsTotal.ASetT.parse_no_panic / parse_fuel_never_exhausted : every byte string",
     "RecsTotal.ASetT.reserialize_no_panic : parse f = Ok v -> serialize m v <> Panic k   (both modes)",
     "RecsTotal.AssetT.from_archive_no_panic / from_archive_fuel_never_exhausted / from_archive_ok_iff (Ok <-> 4 <= size)",
-    "RecsTotal.AssetT.from_stream_advances : from_stream a p = Ok (sp, p') -> p + 8 <= p' /\\ p + 8 <= size a",
+    "RecsTotal.AssetT.from_stream_advances : from_stream a p = Ok (sp, p') -> p + 8 <= p' <= size a",
     "RecsTotal.AssetT.parse_no_panic / parse_fuel_never_exhausted : every byte string",
     "RecsTotal.AssetT.serialize_no_panic : forall m b k, serialize m b <> Panic k   (every value, both modes)",
 ]
